@@ -26,8 +26,8 @@
 #ifndef MOCK_MAX_FRAMES
 #define MOCK_MAX_FRAMES 4
 #endif
-#define NCAM 2
-#define NSTO 2
+#define NCAM 3
+#define NSTO 3
 #define TAG(cam, acq, i) ((uint8_t)(((cam) << 6) | (((acq) & 3) << 4) | ((i) & 15)))
 
 struct mock_cam {
@@ -98,19 +98,23 @@ mc_start(struct Camera* c)
     CAM[id].frames_this_run = 0;
     return Device_Ok;
 }
+static void (*mock_cam_stop_hook)(int cam);
 static enum DeviceStatusCode
 mc_stop(struct Camera* c)
 {
     int id = ((struct mock_cam*)c)->id;
+    if (mock_cam_stop_hook) mock_cam_stop_hook(id);
     if (!CAM[id].started) ++CAM[id].viol; /* stop without start */
     CAM[id].started = 0;
     ++CAM[id].stops;
     return Device_Ok;
 }
+static void (*mock_trigger_hook)(int cam);
 static enum DeviceStatusCode
 mc_trigger(struct Camera* c)
 {
     ++CAM[((struct mock_cam*)c)->id].triggers;
+    if (mock_trigger_hook) mock_trigger_hook(((struct mock_cam*)c)->id);
     return Device_Ok;
 }
 static enum DeviceStatusCode
@@ -164,6 +168,7 @@ ms_append(struct Storage* s, const struct VideoFrame* frames, size_t* nbytes)
     if (STO[id].failed) ++STO[id].appended_after_fail;
     if (STO[id].appends++ == STO[id].fail_append_at) {
         STO[id].failed = 1;
+        STO[id].started = 0; /* the device reports that it has left the running state by itself */
         return DeviceState_AwaitingConfiguration;
     }
 #ifdef MOCK_APPEND_LOG
